@@ -1061,26 +1061,69 @@ func (e *Exec) lookup(st *State, fr *Frame, x *ssa.Lookup) []stepOut {
 	vt := x.X.Type().Underlying().(*types.Map).Elem()
 	var res Value = e.zero(vt)
 	found := tc.False()
-	if m.Obj >= 0 {
-		mo := st.heap[m.Obj].(MapObj)
-		for i := len(mo.Keys) - 1; i >= 0; i-- {
-			c := e.valueEq(st, key, mo.Keys[i])
-			if c.IsFalse() {
-				continue
-			}
-			if c.IsTrue() {
-				res, found = mo.Vals[i], tc.True()
-				continue
-			}
-			res = e.mergeValueOrFail(c, mo.Vals[i], res, "map lookup with symbolic key")
-			found = tc.Or(c, found)
+	setRes := func(s *State, f *Frame, v Value, ok *Term) {
+		if x.CommaOk {
+			f.locals[x] = TupleV{v, BoolV{ok}}
+		} else {
+			f.locals[x] = v
 		}
 	}
-	if x.CommaOk {
-		fr.locals[x] = TupleV{res, BoolV{found}}
-	} else {
-		fr.locals[x] = res
+	if m.Obj >= 0 {
+		mo := st.heap[m.Obj].(MapObj)
+		mergeOK := true
+		func() {
+			defer func() {
+				if r := recover(); r != nil {
+					if _, isU := r.(Unsupported); isU {
+						mergeOK = false
+						return
+					}
+					panic(r)
+				}
+			}()
+			for i := len(mo.Keys) - 1; i >= 0; i-- {
+				c := e.valueEq(st, key, mo.Keys[i])
+				if c.IsFalse() {
+					continue
+				}
+				if c.IsTrue() {
+					res, found = mo.Vals[i], tc.True()
+					continue
+				}
+				res = e.mergeValueOrFail(c, mo.Vals[i], res, "map lookup with symbolic key")
+				found = tc.Or(c, found)
+			}
+		}()
+		if !mergeOK {
+			// fork per matching entry (later entries shadow earlier ones cannot happen: keys are distinct)
+			var outs []stepOut
+			for i := range mo.Keys {
+				c := e.valueEq(st, key, mo.Keys[i])
+				if c.IsFalse() {
+					continue
+				}
+				if c.IsTrue() {
+					setRes(st, fr, mo.Vals[i], tc.True())
+					return append(outs, stepOut{st: st, fr: fr})
+				}
+				if e.feasible(st, c) {
+					s2, f2 := st.fork(), fr.fork()
+					s2.assume(c)
+					setRes(s2, f2, mo.Vals[i], tc.True())
+					outs = append(outs, stepOut{st: s2, fr: f2})
+					e.stats.Forks++
+				}
+				nc := tc.Not(c)
+				if !e.feasible(st, nc) {
+					return outs
+				}
+				st.assume(nc)
+			}
+			setRes(st, fr, e.zero(vt), tc.False())
+			return append(outs, stepOut{st: st, fr: fr})
+		}
 	}
+	setRes(st, fr, res, found)
 	return one(st, fr)
 }
 
@@ -1112,6 +1155,7 @@ func (e *Exec) mapUpdate(st *State, fr *Frame, x *ssa.MapUpdate) []stepOut {
 // mapStore performs m[key]=v, forking when key equality with existing entries is symbolic.
 func (e *Exec) mapStore(st *State, fr *Frame, m MapV, key, v Value) []stepOut {
 	mo := st.heap[m.Obj].(MapObj)
+	var outs []stepOut
 	for i := range mo.Keys {
 		c := e.valueEq(st, key, mo.Keys[i])
 		if c.IsFalse() {
@@ -1121,10 +1165,9 @@ func (e *Exec) mapStore(st *State, fr *Frame, m MapV, key, v Value) []stepOut {
 			nv := append([]Value(nil), mo.Vals...)
 			nv[i] = v
 			st.heap[m.Obj] = MapObj{mo.Keys, nv}
-			return one(st, fr)
+			return append(outs, stepOut{st: st, fr: fr})
 		}
 		// symbolic: fork
-		var outs []stepOut
 		if e.feasible(st, c) {
 			s2, f2 := st.fork(), fr.fork()
 			s2.assume(c)
@@ -1144,7 +1187,7 @@ func (e *Exec) mapStore(st *State, fr *Frame, m MapV, key, v Value) []stepOut {
 	nk := append(append([]Value(nil), mo.Keys...), key)
 	nv := append(append([]Value(nil), mo.Vals...), v)
 	st.heap[m.Obj] = MapObj{nk, nv}
-	return one(st, fr)
+	return append(outs, stepOut{st: st, fr: fr})
 }
 
 func (e *Exec) mapDelete(st *State, fr *Frame, m MapV, key Value) []stepOut {
@@ -1152,6 +1195,7 @@ func (e *Exec) mapDelete(st *State, fr *Frame, m MapV, key Value) []stepOut {
 		return one(st, fr)
 	}
 	mo := st.heap[m.Obj].(MapObj)
+	var outs []stepOut
 	for i := range mo.Keys {
 		c := e.valueEq(st, key, mo.Keys[i])
 		if c.IsFalse() {
@@ -1165,9 +1209,8 @@ func (e *Exec) mapDelete(st *State, fr *Frame, m MapV, key Value) []stepOut {
 		}
 		if c.IsTrue() {
 			del(st)
-			return one(st, fr)
+			return append(outs, stepOut{st: st, fr: fr})
 		}
-		var outs []stepOut
 		if e.feasible(st, c) {
 			s2, f2 := st.fork(), fr.fork()
 			s2.assume(c)
@@ -1181,7 +1224,7 @@ func (e *Exec) mapDelete(st *State, fr *Frame, m MapV, key Value) []stepOut {
 		}
 		return outs
 	}
-	return one(st, fr)
+	return append(outs, stepOut{st: st, fr: fr})
 }
 
 func (e *Exec) next(st *State, fr *Frame, x *ssa.Next) []stepOut {
